@@ -21,6 +21,7 @@ struct OpSpec {
   bool short_io = false;
   uint64_t io_seed = 1;
   size_t fsize = 0;         // only feeds the progress display
+  bool echo = false;        // Settings::no_echo = !echo: with echo the progress / mode-name / result printers run (std::cout goes to /dev/null)
   simsched::SchedConfig sc;
 };
 
